@@ -52,7 +52,7 @@ fi
 export GOSUMDB=off GOTOOLCHAIN=local PATH=/opt/veriftools/go1.26.8/bin:$PATH; unset GOWORK
 cp /verif/known_findings.json "$OUT/"
 for P in $PROPS; do
-  /verif/bin/ykcheck -repo "$WT" -verif "$OUT" -property "$P" -tier quick > "$OUT/check.log" 2>&1
+  ${YKCHECK:-/verif/bin/ykcheck} -repo "$WT" -verif "$OUT" -property "$P" -tier quick > "$OUT/check.log" 2>&1
   echo "checker[$P] exit $?"
   grep -E '^property=|^\s+\[(violation|undecided)\]' "$OUT/check.log" | grep -B1 -E '\[(violation|undecided)\]' | cut -c1-420
 done
